@@ -327,18 +327,26 @@ def run(tier):
                 return any(bounded_by_board(a) for a in x[2])
             return False
         # ... and by the level the network last commanded (configuration.tx_power when it is Some)
-        def bounded_by_commanded(x):
+        def bounded_by_commanded(x, conds=()):
             x = peel(x)
             if is_call(x, 'Option::unwrap_or') and field_path(x[2][0])[1][-2:] == ['configuration', 'tx_power']:
                 return True
+            # the Some payload of configuration.tx_power itself
+            if x[:1] == ('field',) and x[2] == '0' and isinstance(x[1], tuple) and x[1][:1] == ('as',) and x[1][2] == 'Some' and field_path(x[1][1])[1][-2:] == ['configuration', 'tx_power']:
+                return True
             if is_call(x, 'cmp::min') or is_call(x, 'Ord::min'):
-                return any(bounded_by_commanded(a) for a in x[2])
-            return False
+                return any(bounded_by_commanded(a, conds) for a in x[2])
+            # no level has been commanded on this path (configuration.tx_power is None): nothing to honour
+            return any(y[0][0] == 'discr' and field_path(y[0][1])[1][-2:] == ['configuration', 'tx_power'] and y[1] in ((0,), ('not', (1,))) for y in conds)
+        # a cap selected by a match on the commanded level: every alternative is judged under its own conditions
+        cap_alts = [(cap, [])]
+        if cap[:1] == ('phi',):
+            cap_alts = [(peel(rules.resolve_captures(c.pf, bfa, v_)), cs_) for v_, cs_, b_ in rules.defs_with_conditions(bfa, cap[1])]
         # one reviewed exception: a join request is sent outside any session, there is no commanded level to honour
-        res.require(bounded_by_commanded(cap) or fn == 'mac::Mac::join_otaa', 'C09:%s:power-cap-ignores-commanded-level' % fn,
+        res.require(all(bounded_by_commanded(a_, cs_) for a_, cs_ in cap_alts) or fn == 'mac::Mac::join_otaa', 'C09:%s:power-cap-ignores-commanded-level' % fn,
                     'the cap handed to adjust_power is %s: the TX power level commanded by the network (configuration.tx_power) does not limit this transmission' % term_str(cap)[:120],
                     short_site(bfa, bb), 'BOUND(cap <= commanded level)', instance='%s: power cap bounded by the commanded level' % fn)
-        res.require(bounded_by_board(cap), 'C09:%s:power-cap-not-bounded-by-board-maximum' % fn,
+        res.require(all(bounded_by_board(a_) for a_, cs_ in cap_alts), 'C09:%s:power-cap-not-bounded-by-board-maximum' % fn,
                     'the cap handed to adjust_power is %s: when the network has commanded a level, the board maximum no longer limits the conducted power' % term_str(cap)[:120],
                     short_site(bfa, bb), 'BOUND(cap <= board max_power)', instance='%s: power cap bounded by the board maximum' % fn)
     if n_adj < 2:
